@@ -7,8 +7,15 @@ for l in open('/verif/properties.jsonl'):
     if p['id'] == pid:
         break
 wt = f"/tmp/seed-{pid}" if rnd == "1" else f"/tmp/seed{rnd}-{pid}"
-VA, VB = ("A", "B") if rnd == "1" else ("C", "D")
-print(f"""You are given a git worktree of the Go/Rust repository refraction-networking/conjure (a refraction-networking "Conjure" station: registration ingest/tracking, phantom address selection, wrapping/connecting transports that proxy censored clients to covert destinations) at `{wt}`. Work ONLY inside that directory (never touch /repo or /verif, do not read /verif). The sandbox has no network. Go environment for every shell call: `cd {wt} && export GOFLAGS= GOPROXY=off GOSUMDB=off GOTOOLCHAIN=local` (the repo is a go.work workspace: modules `.`, `cmd/application`, `cmd/registration-server`, `util/station-debug`; run `go test -vet=off -count=1 ./pkg/...` from the root and `go test -vet=off -count=1 .` inside cmd/application). One existing test, TestConjureLibConfigResolveBlocklisted, fails for lack of DNS even on the untouched tree - ignore it. Some existing tests bind fixed ports (ZMQ 39000 etc.) and may collide with other users of this machine: if such a test hangs or fails, re-run it once before concluding anything.
+VA, VB = {"1": ("A", "B"), "2": ("C", "D"), "3": ("E", "F")}[rnd]
+avoid = ""
+if rnd == "3":
+    # round 3: name what other developers already tried for this property, so that effort goes elsewhere
+    # (descriptions of the earlier changes only – nothing about how anything is checked)
+    short = json.load(open('/verif/seeded/SHORT.json'))
+    prev = [f"  - {v}" for k, v in sorted(short.items()) if k.startswith(pid + "-")]
+    avoid = "\n\nOther developers have already tried the following changes for this property; do NOT repeat them or close variations of them (different code location, different mechanism, different trigger, please):\n" + "\n".join(prev)
+print(f"""You are given a git worktree of the Go/Rust repository refraction-networking/conjure (a refraction-networking "Conjure" station: registration ingest/tracking, phantom address selection, wrapping/connecting transports that proxy censored clients to covert destinations) at `{wt}`. Work ONLY inside that directory (never touch /repo or /verif, do not read /verif). The sandbox has no network. Go environment for every shell call: `cd {wt} && export GOFLAGS= GOPROXY=off GOSUMDB=off GOTOOLCHAIN=local` (the repo is a go.work workspace: modules `.`, `cmd/application`, `cmd/registration-server`, `util/station-debug`; run `go test -vet=off -count=1 ./pkg/...` from the root and `go test -vet=off -count=1 .` inside cmd/application). One existing test, TestConjureLibConfigResolveBlocklisted, fails for lack of DNS even on the untouched tree - ignore it. Some existing tests bind fixed ports (ZMQ 39000 etc.) and may collide with other users of this machine: if such a test hangs or fails, re-run it once before concluding anything (or run the tests in a private network namespace: `unshare -n sh -c 'ip link set lo up; go test …'`).
 
 Here is a semantic property that this code base is supposed to satisfy:
 
@@ -28,4 +35,4 @@ Deliverables, all under `{wt}/SEEDED/` (create it):
   - `{VA}/patch.diff`, `{VB}/patch.diff`: output of `git diff` for the source change only (no demo files, nothing under SEEDED/). Each must apply with `git apply` to a clean checkout of this worktree's HEAD.
   - `{VA}/demo/…`, `{VB}/demo/…`: the demonstration file(s) with, in `{VA}/demo/README.txt`, the exact path where each file must be placed and the exact command to run it.
   - `{VA}/meta.json`, `{VB}/meta.json`: {{"property": "{p['id']}", "variant": "{VA}", "summary": "...what the change does...", "why_it_breaks_the_property": "...", "needs_to_manifest": "...the specific input / interleaving / fault / sequence...", "files_touched": [...], "existing_tests_run": "...commands and results...", "demo_command": "...", "demo_result_with_change": "FAIL ...", "demo_result_without_change": "PASS"}}
-Before finishing: `git stash`/`git checkout` so that the worktree's tracked files are back at HEAD (leave only SEEDED/ and nothing else untracked), and verify once more from that clean state that each patch applies, builds, passes the existing tests of the touched packages, and that the demo fails with / passes without it. Also create `SEEDED/go.mod` containing `module seeded` so that the stored demo files do not disturb `go test ./...` at the repository root. Aim for breaks that are NOT the first thing one would think of for this property: favour subtle state-dependent, ordering-dependent, boundary-value or cross-component changes over simply deleting a check. Report briefly what the two variants are.""")
+Before finishing: `git stash`/`git checkout` so that the worktree's tracked files are back at HEAD (leave only SEEDED/ and nothing else untracked), and verify once more from that clean state that each patch applies, builds, passes the existing tests of the touched packages, and that the demo fails with / passes without it. Also create `SEEDED/go.mod` containing `module seeded` so that the stored demo files do not disturb `go test ./...` at the repository root. Aim for breaks that are NOT the first thing one would think of for this property: favour subtle state-dependent, ordering-dependent, boundary-value or cross-component changes over simply deleting a check. Report briefly what the two variants are.""" + avoid)
